@@ -62,17 +62,30 @@ class Lock:
 
 
 def sh(cmd, cwd=None, env=None, timeout=None, input=None):
+    """Run cmd in its own session; on timeout the whole process group is killed (a grandchild holding the output
+    pipe would otherwise block the reader forever) and whatever was printed so far is returned with rc 124."""
     e = dict(os.environ)
     e.update({'CARGO_NET_OFFLINE': 'true'})
     if env:
         e.update(env)
     t0 = time.time()
+    p = subprocess.Popen(cmd, cwd=cwd, env=e, stdout=subprocess.PIPE, stderr=subprocess.STDOUT,
+                         stdin=subprocess.PIPE if input is not None else None, start_new_session=True)
     try:
-        p = subprocess.run(cmd, cwd=cwd, env=e, stdout=subprocess.PIPE, stderr=subprocess.STDOUT,
-                           timeout=timeout, input=input)
-        return p.returncode, p.stdout.decode('utf-8', 'replace'), time.time() - t0
-    except subprocess.TimeoutExpired as ex:
-        out = ex.stdout.decode('utf-8', 'replace') if ex.stdout else ''
+        out, _ = p.communicate(input=input, timeout=timeout)
+        return p.returncode, out.decode('utf-8', 'replace'), time.time() - t0
+    except subprocess.TimeoutExpired:
+        import signal
+        try:
+            os.killpg(p.pid, signal.SIGKILL)
+        except OSError:
+            pass
+        try:
+            out, _ = p.communicate(timeout=10)
+        except subprocess.TimeoutExpired:
+            p.kill()
+            out = b''
+        out = out.decode('utf-8', 'replace') if out else ''
         return 124, out + '\n[timeout after %ss]' % timeout, time.time() - t0
 
 
@@ -345,6 +358,15 @@ def run_sharded(cmd, lines, shards=NPROC, timeout=1800, env=None):
     out = [None] * len(lines)
     for si, (rc, ol) in enumerate(results):
         idxs = list(range(si, len(lines), shards))
+        if rc == 124:
+            # the shard did not finish: the answers printed so far stand, the first unanswered case is the one the
+            # implementation hangs on, the rest of the shard was never started
+            ol = [l for l in ol if not l.startswith('[timeout after')]
+            if ol and len(ol) <= len(idxs) and not (ol[-1].startswith('(') or ol[-1][:1].isdigit() or ol[-1][:1] == '#' or ol[-1][:1].isalpha()):
+                ol.pop()
+            ol = ol[:len(idxs)]
+            if len(ol) < len(idxs):
+                ol = ol + [HUNG % timeout] + [NOT_RUN] * (len(idxs) - len(ol) - 1)
         if len(ol) < len(idxs):
             ol = ol + ['(harness_died rc=%d)' % rc] * (len(idxs) - len(ol))
         # extra lines (stderr noise) are tolerated only at the end
@@ -353,12 +375,16 @@ def run_sharded(cmd, lines, shards=NPROC, timeout=1800, env=None):
     return out
 
 
+HUNG = '(harness_hung %s)'
+NOT_RUN = '(not_run)'
+
+
 class Leg:
     """One differential leg: same cases through the extracted model and the real code."""
 
     def __init__(self, name, gen, monitor=None, nontrivial=None, shrink=None, neighbours=None,
                  classify=None, stats=None, model_leg=None, impl_bin=None, impl_args=None, rule='',
-                 compare=None, shards=NPROC, impl_env=None, compare_case=None):
+                 compare=None, shards=NPROC, impl_env=None, compare_case=None, timeout=None):
         self.name = name
         self.gen = gen
         self.monitor = monitor or (lambda case, out: [])
@@ -375,6 +401,7 @@ class Leg:
         self.compare_case = compare_case   # optional (model_line, impl_line, case) -> bool, takes precedence
         self.shards = shards
         self.impl_env = impl_env
+        self.timeout = timeout      # seconds per implementation shard (default: 600 quick / 1800 thorough)
 
 
 class Report:
@@ -431,14 +458,22 @@ def corpus_cases(pid, leg):
     return out
 
 
-def run_pair(rep, pid, leg, cases, harness):
+def run_pair(rep, pid, leg, cases, harness, timeout=None):
     lines = [sx.dumps(c) for c in cases]
     model_cmd = [os.path.join(BUILD, 'modelrun-' + pid), leg.model_leg]
     impl_cmd = [harness_bin(leg.impl_bin or harness)] + leg.impl_args
     with ThreadPoolExecutor(max_workers=2) as ex:
         fm = ex.submit(run_sharded, model_cmd, lines, leg.shards)
-        fi = ex.submit(run_sharded, impl_cmd, lines, leg.shards, 1800, leg.impl_env)
+        fi = ex.submit(run_sharded, impl_cmd, lines, leg.shards, timeout or leg_timeout(rep, leg), leg.impl_env)
         return fm.result(), fi.result()
+
+
+def leg_timeout(rep, leg):
+    """Wall-clock limit for one shard of the implementation run.  On the unchanged tree the quick legs take well under
+    two minutes; a shard that does not finish means the real code hangs on a case (deadlock, unbounded wait)."""
+    if leg.timeout:
+        return leg.timeout
+    return 1800 if rep.tier == 'thorough' else 600
 
 
 def parse_out(line):
@@ -458,7 +493,18 @@ def run_leg(rep, pid, leg, harness, known):
     dis = []
     nviol = 0
     info = dict(cases=len(cases), corpus=len(corpus), disagreements=0, violations=0, nontrivial=0)
+    nhung = 0
     for case, m, i in zip(cases, mout, iout):
+        if i == NOT_RUN:
+            continue
+        if i.startswith('(harness_hung'):
+            nhung += 1
+            nviol += 1
+            if nhung <= 2:
+                rep.violation('property', leg.name, case,
+                              'the implementation does not answer this case (no result within %s s: it hangs, deadlocks or waits '
+                              'without bound); the model answers %s' % (i[len('(harness_hung '):-1], m[:400]))
+            continue
         rep.evaluations += 1
         io = parse_out(i)
         if leg.stats:
@@ -490,6 +536,8 @@ def run_leg(rep, pid, leg, harness, known):
             rep.samples.append({'leg': leg.name, 'case': sx.dumps(c)[:1500]})
     log('leg %s: %d cases (%d corpus), %d disagreements, %d violations, %.1fs'
         % (leg.name, len(cases), len(corpus), len(dis), nviol, time.time() - t0))
+    if nhung:
+        rep.oblige('answers:' + leg.name, False, '%d shard(s) of the implementation run hung' % nhung)
     # ---- search on disagreement
     for case, m, i in dis[:3]:
         small = shrink_case(rep, pid, leg, harness, case)
@@ -498,7 +546,7 @@ def run_leg(rep, pid, leg, harness, known):
         if leg.neighbours:
             cand += list(leg.neighbours(small))[:400]
         if cand:
-            _, io2 = run_pair(rep, pid, leg, cand, harness)
+            _, io2 = run_pair(rep, pid, leg, cand, harness, timeout=300)
             for c2, i2 in zip(cand, io2):
                 for v in leg.monitor(c2, parse_out(i2)):
                     fid = leg.classify(c2, parse_out(i2), v)
@@ -528,7 +576,7 @@ def shrink_case(rep, pid, leg, harness, case):
         cands = list(leg.shrink(cur))[:300]
         if not cands:
             break
-        mo, io = run_pair(rep, pid, leg, cands, harness)
+        mo, io = run_pair(rep, pid, leg, cands, harness, timeout=300)
         nxt = None
         for c, m, i in zip(cands, mo, io):
             if not (leg.compare_case(m, i, c) if leg.compare_case else leg.compare(m, i)):
